@@ -1,2 +1,191 @@
-"""Bounded stand-ins (labelled; never counted as proved).  BOUNDED[prop] = [(name, fn(tier, seed) -> dict)]"""
+"""Bounded stand-ins (labelled; never counted as proved).  BOUNDED[prop] = [(name, fn(tier, seed) -> dict)]
+
+Each stands in for an ASSUMED contract of a library function that the deductive obligations rest on: the real library is
+run on a finite, stated set of inputs and compared with the contract."""
+import random, re, sys, os, json, math
+from fractions import Fraction
+
+REPO = os.environ.get("GSCRIB_REPO", "/repo")
+if REPO not in sys.path: sys.path.insert(0, REPO)
+
 BOUNDED = {}
+
+
+def bounded(prop, name):
+    def deco(fn):
+        BOUNDED.setdefault(prop, []).append((name, fn)); return fn
+    return deco
+
+
+def _save(prop, name, payload):
+    root = os.path.dirname(os.path.dirname(os.path.abspath(__file__)))
+    os.makedirs(os.path.join(root, "replays"), exist_ok=True)
+    path = os.path.join(root, "replays", f"{prop}_bounded_{name}.json")
+    with open(path, "w") as f: json.dump(payload, f, indent=1, default=str)
+    return path
+
+
+# ---------------------------------------------------------------------------------------------- C18: report tokenisation
+def _dec(rnd):
+    s = rnd.choice(["", "-"]) + str(rnd.randint(0, 9999))
+    if rnd.random() < 0.7: s += "." + str(rnd.randint(0, 999999)).zfill(rnd.randint(1, 6))
+    return s
+
+
+def _gen_report(rnd):
+    """(line, expected tokens [(key, valuetext)]) from an independent generator of the four report families"""
+    fam = rnd.choice(["marlin_pos", "marlin_temp", "grbl_status", "grbl_prb"])
+    toks = []
+    if fam == "marlin_pos":
+        letters = rnd.sample(["X", "Y", "Z", "E"], rnd.randint(1, 4))
+        parts = []
+        for l in letters:
+            v = _dec(rnd); parts.append(f"{l}:{v}"); toks.append((l, v))
+        line = " ".join(parts)
+        if rnd.random() < 0.7:
+            cparts = []
+            for l in rnd.sample(["X", "Y", "Z"], rnd.randint(1, 3)):
+                v = str(rnd.randint(-99999, 99999)); cparts.append(f"{l}:{v}"); toks.append((l, v))
+            line += " Count " + " ".join(cparts)
+    elif fam == "marlin_temp":
+        parts = []
+        for l in rnd.sample(["T", "B", "C", "T0", "T1"], rnd.randint(1, 4)):
+            v, tgt = _dec(rnd).lstrip("-"), _dec(rnd).lstrip("-")
+            parts.append(f"{l}:{v} /{tgt}"); toks.append((l, v))
+        if rnd.random() < 0.5:
+            v = str(rnd.randint(0, 127)); parts.append(f"@:{v}")          # '@' is not alphanumeric: not a token
+        line = ("ok " if rnd.random() < 0.5 else "") + " ".join(parts)
+    elif fam == "grbl_status":
+        fields = []
+        kind = rnd.choice(["MPos", "WPos"])
+        cs = [_dec(rnd) for _ in range(rnd.randint(3, 6))]
+        fields.append((kind, ",".join(cs)))
+        if rnd.random() < 0.8: fields.append(("FS", f"{rnd.randint(0, 9999)},{rnd.randint(0, 24000)}"))
+        if rnd.random() < 0.3: fields.append(("Bf", f"{rnd.randint(0, 15)},{rnd.randint(0, 128)}"))
+        rnd.shuffle(fields)
+        toks = list(fields)
+        line = "<" + rnd.choice(["Idle", "Run", "Hold"]) + "|" + "|".join(f"{k}:{v}" for k, v in fields) + ">"
+    else:
+        cs = [_dec(rnd) for _ in range(3)]
+        toks = [("PRB", ",".join(cs))]
+        line = f"[PRB:{','.join(cs)}:{rnd.randint(0, 1)}]"
+    return line, toks
+
+
+def _expected_readings(line, toks):
+    out = {}
+    def upd(k, v):
+        if k not in out: out[k] = v
+    for k, v in toks:
+        if len(k) == 1 and k.isalnum(): upd(k, float(v))
+        elif k == "FS" and line.startswith("<"):
+            a, b = v.split(","); upd("F", float(a)); upd("S", float(b))
+        elif k in ("MPos", "WPos", "PRB"):
+            for ax, c in zip("XYZABC", v.split(",")): upd(ax, float(c))
+    return out
+
+
+@bounded("C18", "report-tokenisation")
+def c18_tokens(tier, seed):
+    from gscrib.writers import printrun_writer as pw
+    from gscrib.params import ParamsDict
+    import logging
+    rnd = random.Random(seed or 1)
+    n = 3000 if tier == "quick" else 100000
+    bad = []
+    for i in range(n):
+        line, toks = _gen_report(rnd)
+        got = pw.VALUE_PATTERN.findall(line.strip())
+        # contract: findall yields exactly the (key, value-text) tokens of the report, in order (values keep their text)
+        if [(k, v) for k, v in got] != toks:
+            bad.append({"line": line, "expected_tokens": toks, "findall": got}); break
+        w = pw.PrintrunWriter.__new__(pw.PrintrunWriter)
+        w._reported_params = set(); w._current_params = ParamsDict(); w._logger = logging.getLogger("verif")
+        w._current_params["Q"] = 42.0
+        class _Ev:
+            def set(self): pass
+        w._ack_event = _Ev(); w._device_error = None
+        w._on_device_message(line)
+        exp = _expected_readings(line.strip(), toks); exp.setdefault("Q", 42.0)
+        got_r = dict(w._current_params)
+        if got_r != exp:
+            bad.append({"line": line, "expected_readings": exp, "got": got_r}); break
+    res = {"name": "report-tokenisation", "cases": n, "bounded": True,
+           "summary": f"{n} generated Marlin/Grbl reports (seeded): VALUE_PATTERN.findall == independent tokenisation; end-to-end readings == first-occurrence spec",
+           "status": "violated" if bad else "held"}
+    if bad: res["replay"] = {"reproduced": True, "path": _save("C18", "report-tokenisation", bad[0]), "witness": bad[0]}
+    return res
+
+
+# ---------------------------------------------------------------------------------------------- C14: real writers, real files
+@bounded("C14", "writer-histories-on-real-files")
+def c14_histories(tier, seed):
+    """bounded stand-in for the assumed file-object contract: random histories over real path files / streams / custom writers"""
+    import io, tempfile, shutil
+    from gscrib import GCodeCore
+    from gscrib.writers import FileWriter
+    from gscrib.writers.base_writer import BaseWriter
+    class Cap(BaseWriter):
+        def __init__(self): self.got = []; self.connected = True
+        def connect(self): self.connected = True; return self
+        def disconnect(self, wait=True): self.connected = False
+        def write(self, b): self.got.append(bytes(b))
+    rnd = random.Random(seed or 1)
+    n = 60 if tier == "quick" else 2000
+    root = os.path.dirname(os.path.dirname(os.path.abspath(__file__)))
+    tmp = tempfile.mkdtemp(dir=os.environ.get("TMPDIR", os.path.join(root, ".tmp")))
+    bad, known_seen = [], 0
+    try:
+        for h in range(n):
+            eol = rnd.choice(["\\n", "\\r\\n"])
+            g = GCodeCore(line_endings=eol)
+            real_eol = eol.encode().decode("unicode-escape")
+            pool = []
+            for k in range(3):
+                kind = rnd.choice(["path", "text", "binary", "custom"])
+                if kind == "path": w = FileWriter(os.path.join(tmp, f"h{h}_{k}.gcode")); sink = w._output
+                elif kind == "text": sink = io.StringIO(newline=""); w = FileWriter(sink)
+                elif kind == "binary": sink = io.BytesIO(); w = FileWriter(sink)
+                else: w = Cap(); sink = w
+                pool.append(dict(kind=kind, w=w, sink=sink, expect=b"", ever_disconnected_with_output=False))
+            registered, trace = [], []
+            for step in range(rnd.randint(3, 12)):
+                op = rnd.choice(["add", "add", "remove", "write", "write", "write", "flush", "teardown"])
+                if op == "add":
+                    p = rnd.choice(pool); g.add_writer(p["w"]); trace.append(("add", pool.index(p)))
+                    if p not in registered: registered.append(p)
+                elif op == "remove":
+                    p = rnd.choice(pool); g.remove_writer(p["w"]); trace.append(("remove", pool.index(p)))
+                    if p in registered: registered.remove(p)
+                elif op == "write":
+                    txt = rnd.choice(["G1 X1", "G0 Z5 ; héllo ünïcode", "M3 S1000   ", "; comment only"])
+                    g.comment(txt) if txt.startswith(";") and False else g.write(txt)
+                    data = (txt.rstrip() + real_eol).encode("utf-8"); trace.append(("write", txt))
+                    for p in registered:
+                        if p["kind"] == "path" and p["ever_disconnected_with_output"]: p["expect"] = b""; p["ever_disconnected_with_output"] = False; p["truncated"] = True
+                        p["expect"] += data
+                elif op == "flush": g.flush(); trace.append(("flush",))
+                else:
+                    g.teardown(); trace.append(("teardown",))
+                    for p in registered:
+                        if p["kind"] == "path" and p["expect"]: p["ever_disconnected_with_output"] = True
+                    registered = []
+                if op in ("flush", "teardown"):
+                    for p in pool:
+                        if p["kind"] == "path":
+                            got = open(p["sink"], "rb").read() if os.path.exists(p["sink"]) else b""
+                        elif p["kind"] == "text": got = p["sink"].getvalue().encode("utf-8")
+                        elif p["kind"] == "binary": got = p["sink"].getvalue()
+                        else: got = b"".join(p["sink"].got)
+                        if p.get("truncated"): known_seen += 1
+                        if got != p["expect"]: bad.append({"history": trace, "writer": p["kind"], "expected": p["expect"].decode(), "got": got.decode(errors="replace")})
+                if bad: break
+            g.teardown()
+            if bad: break
+    finally:
+        shutil.rmtree(tmp, ignore_errors=True)
+    res = {"name": "writer-histories-on-real-files", "cases": n, "bounded": True, "status": "violated" if bad else "held",
+           "summary": f"{n} random histories (<=12 steps, 3 writers: path file / text / binary stream / custom) on the real OS; oracle = concatenation of delivered lines, "
+                      f"with the known finding (reopen truncates) modelled; histories that exercised the known finding: {known_seen}"}
+    if bad: res["replay"] = {"reproduced": True, "path": _save("C14", "writer-histories", bad[0]), "witness": bad[0]}
+    return res
